@@ -18,6 +18,9 @@ CHECKS = {
  'C11': dict(text='Generated programs are printed in two spellings differing in one documented sugar class (S1-S10) at one or all occurrences; both spellings, compiled and run on SQLite, must equal the reference evaluator value of the AST.',
              note='Trusted: CPython, sqlite3, Hypothesis, reference evaluator. S8 is not asserted when a list element contains a functional call to a table (two documented sugars interact).',
              technique='metamorphic property-based testing over spelling variants (Hypothesis)', ref='2/C11'),
+ 'C16': dict(text='Exhaustive enumeration of all ordered pairs of type terms of depth <= 2 over a reduced alphabet (1.67M pairs in quick) plus Hypothesis-sampled pairs and triples of depth <= 3 with shared TypeReference objects, reference chains and bare concrete children; oracle is an independent structural meet with bottom (two formulations cross-checked); symmetry, same-denotation, idempotence, information preservation, clash iff bottom, order independence of clash-free triples.',
+             note='Trusted: CPython, Hypothesis, the independent oracle lv/typemeet.py. Cyclic (occurs-check) cases skipped; nothing asserted after a clash inside a triple.',
+             technique='exhaustive enumeration + property-based testing against a reference model (Hypothesis)', ref='2/C16'),
 }
 NOT_YET = 'check not built yet in this round (planned in DESIGN.md)'
 m = {
